@@ -38,6 +38,17 @@ def load(src, prefix="vgen"):
     return m
 
 
+def rewrite(m, src):
+    """History: the file module ``m`` came from is edited on disk (later modification time) and loaded again in this process."""
+    path = m.__file__
+    st = os.stat(path)
+    with open(path, "w", encoding="utf-8") as f:
+        f.write(src)
+    os.utime(path, (st.st_atime + 2, st.st_mtime + 2))
+    m.__spec__.loader.exec_module(m)  # what importlib.reload does for a module found on the path
+    return m
+
+
 def unload(m):
     sys.modules.pop(m.__name__, None)
     try:
